@@ -231,9 +231,11 @@ fn mode_model(cx: &mut Ctx, prop: &str, only_unit: Option<usize>, only_input: Op
         for s in &sets {
             let facts: Vec<Fact> = s.iter().map(|i| uni[*i].clone()).collect();
             run_input(&facts, cx, &mut unit_nontrivial);
-            if cx.thorough && facts.len() >= 2 {
+            if (cx.thorough || prop == "C06") && facts.len() >= 2 {
+                // the order of the tuples in the input vectors is part of the input
                 let mut rev = facts.clone(); rev.reverse();
                 run_input(&rev, cx, &mut unit_nontrivial);
+                if prop == "C06" && facts.len() >= 3 { let mut rot = facts.clone(); rot.rotate_left(1); run_input(&rot, cx, &mut unit_nontrivial); }
             }
         }
         cx.rep.add_extra("programs", 1);
